@@ -3,11 +3,14 @@
    supply OCaml's libm as the LibM record. *)
 open Model
 
-let lift f x = Float64.of_float (f (Float64.to_float x))
+(* Coq's kernel represents NaN by a signalling pattern; glibc's pow(sNaN, 0) is NaN whereas Go's
+   math.Pow(NaN, 0) (and glibc's on a quiet NaN) is 1: quieten NaNs before calling libm *)
+let quiet v = if v <> v then Int64.float_of_bits 0x7FF8000000000000L else v
+let lift f x = Float64.of_float (f (quiet (Float64.to_float x)))
 let libm : libM = {
   l_exp = lift Stdlib.exp; l_ln = lift Stdlib.log; l_log10 = lift Stdlib.log10;
   l_tanh = lift Stdlib.tanh; l_cos = lift Stdlib.cos;
-  l_pow = (fun x y -> Float64.of_float (Float64.to_float x ** Float64.to_float y));
+  l_pow = (fun x y -> Float64.of_float (quiet (Float64.to_float x) ** quiet (Float64.to_float y)));
 }
 let fa = fArith libm
 
